@@ -26,10 +26,14 @@ func init() {
 			"R20.6 no hand-written exported function under pkg/trait has a body that can only panic. " +
 			"R20.8 index arithmetic that selects a mode value / a fan-speed preset is brought into [0,len) before the slice is indexed (wrap-around by remainder plus len for negatives; clamping for presets). " +
 			"R20.10 a derived operation that writes a freshly built, partially filled message names the paths it changes (WithUpdatePaths/WithUpdateMask) or rebuilds the rest from the old value in its interceptor, because an unmasked write replaces the whole stored message. " +
-			"R20.9 enter/leave totals: the matching total is incremented exactly for its own direction and ResetTotals writes both totals with both update paths; meter: RecordReading stamps end_time and Reset stamps start_time and end_time with one reading of the resource clock and forces the three paths. R20.24 methods of trait models read no package-level Default… variable: they work with the configuration the model holds.",
+			"R20.9 enter/leave totals: the matching total is incremented exactly for its own direction and ResetTotals writes both totals with both update paths; meter: RecordReading stamps end_time and Reset stamps start_time and end_time with one reading of the resource clock and forces the three paths. R20.24 methods of trait models read no package-level Default… variable: they work with the configuration the model holds. R20.25 the enter/leave model compares a supplied total with the stored total itself, not with the incremented one. R20.26 mintVersion writes id, body, media type and audience into its hash and discards no Sum.",
 		Assumptions: []string{"resource.Value/Collection write semantics (C02, C05)", "unitpb.Convert32 arithmetic (C18)"},
 		Run:         runC20,
 		Controls: []Control{
+			{Name: "total-compared-after-the-increment", File: "pkg/trait/enterleavesensorpb/model.go", Old: "\t\t\tif val != nil && *val != cv {\n\t\t\t\t// the caller supplied a new total, use it\n\t\t\t\treturn val\n\t\t\t}\n\t\t\tif inc {\n\t\t\t\tcv++\n\t\t\t}\n", New: "\t\t\tif inc {\n\t\t\t\tcv++\n\t\t\t}\n\t\t\tif val != nil && *val != cv {\n\t\t\t\t// the caller supplied a new total, use it\n\t\t\t\treturn val\n\t\t\t}\n", Expect: "R20.25"},
+			{Name: "version-sums-the-body-instead-of-writing-it", File: "pkg/trait/publicationpb/model.go", Old: "\thash.Write(p.Body)\n", New: "\thash.Sum(p.Body)\n", Expect: "R20.26"},
+			{Name: "version-drops-the-media-type", File: "pkg/trait/publicationpb/model.go", Old: "\tio.WriteString(hash, p.MediaType)\n", New: "", Expect: "R20.26"},
+			{Name: "total-compared-through-a-temporary", Silent: true, File: "pkg/trait/enterleavesensorpb/model.go", Old: "\t\t\tif val != nil && *val != cv {\n", New: "\t\t\tstored := cv\n\t\t\tif val != nil && *val != stored {\n"},
 			{Name: "fan-validates-against-the-default-presets", File: "pkg/trait/fanspeedpb/model.go", Old: "\t\tfor _, preset := range m.presets {\n\t\t\tif preset.Name == fanSpeed.Preset {", New: "\t\tfor _, preset := range DefaultPresets {\n\t\t\tif preset.Name == fanSpeed.Preset {", Expect: "R20.24"},
 			{Name: "inventory-options-replace", File: "pkg/trait/vendingpb/model_opts.go", Old: "\t\targs.inventoryOptions = append(args.inventoryOptions, opts...)", New: "\t\targs.inventoryOptions = opts", Expect: "R20.23"},
 			{Name: "add-child-overwrites", File: "pkg/trait/parentpb/model.go", Old: "m.children.Add(child.Name, child)", New: "m.children.Update(child.Name, child, resource.WithCreateIfAbsent())", Expect: "R20.22"},
@@ -76,6 +80,10 @@ func runC20(c *an.Ctx) {
 	c.Min("R20.23", 3)
 	r2024(c, "R20.24")
 	c.Min("R20.24", 1)
+	r2025(c, "R20.25")
+	c.Min("R20.25", 1)
+	r2026(c, "R20.26")
+	c.Min("R20.26", 1)
 	r2022(c, "R20.22")
 	c.Min("R20.22", 1)
 	r2021(c, "R20.21")
@@ -1553,7 +1561,21 @@ func r2011(c *an.Ctx) {
 		}
 		an.Instrs(fn, func(in ssa.Instruction) {
 			call, ok := in.(*ssa.Call)
-			if !ok || an.CalleeName(call) != "builtin append" || len(call.Call.Args) != 2 {
+			if !ok {
+				return
+			}
+			// append(a, b...) or its library spelling slices.Concat(a, b)
+			var base, added ssa.Value
+			switch cn := an.CalleeName(call); {
+			case cn == "builtin append" && len(call.Call.Args) == 2:
+				base, added = call.Call.Args[0], call.Call.Args[1]
+			case strings.HasPrefix(cn, "slices.Concat") && len(call.Call.Args) == 1:
+				parts := variadicElems(call.Call.Args[0])
+				if len(parts) != 2 {
+					return
+				}
+				base, added = parts[0], parts[1]
+			default:
 				return
 			}
 			// which side is the caller's options?
@@ -1592,7 +1614,6 @@ func r2011(c *an.Ctx) {
 				}
 				return out
 			}
-			base, added := call.Call.Args[0], call.Call.Args[1]
 			switch {
 			case fromCaller(base):
 				// append(opts, own…): the model's options come last
@@ -2523,6 +2544,155 @@ func r2022(c *an.Ctx, rule string) {
 // an option that assigns instead of appending keeps only the last one, so configured stock/items silently vanish.
 // Every With… option of a trait package that stores its variadic resource options into a slice of the model's
 // arguments stores a value built from the slice's current content and its own argument.
+// r2025: a total the caller supplies is compared with the total as it is stored. In the enter/leave model a supplied
+// total that equals the current one means "count this event", a different one replaces it; the comparison is made
+// against the stored value itself. Compared after the increment, an event that echoes the current total is taken for
+// a replacement and is not counted.
+func r2025(c *an.Ctx, rule string) {
+	fn := mustFunc(c, rule, "pkg/trait/enterleavesensorpb", "Model", "CreateEnterLeaveEvent")
+	if fn == nil {
+		return
+	}
+	n, ok := 0, true
+	var pos token.Pos
+	// (the helper that adjusts a total may be a closure of the method or a function of the package)
+	for _, f := range c.Prog.FuncsIn("pkg/trait/enterleavesensorpb") {
+		if len(f.Params) < 2 || c.Prog.IsGenerated(f.Pos()) || strings.HasSuffix(c.Prog.RelFile(f.Pos()), "_test.go") {
+			continue
+		}
+		an.Instrs(f, func(in ssa.Instruction) {
+			bo, isB := in.(*ssa.BinOp)
+			if !isB || (bo.Op != token.NEQ && bo.Op != token.EQL) {
+				return
+			}
+			// one side is the supplied total (*val, val a parameter), the other an integer
+			fromParamLoad := func(v ssa.Value) bool {
+				u, isU := v.(*ssa.UnOp)
+				if !isU || u.Op != token.MUL {
+					return false
+				}
+				_, isP := u.X.(*ssa.Parameter)
+				return isP
+			}
+			var other ssa.Value
+			switch {
+			case fromParamLoad(bo.X):
+				other = bo.Y
+			case fromParamLoad(bo.Y):
+				other = bo.X
+			default:
+				return
+			}
+			if b, isBasic := other.Type().Underlying().(*types.Basic); !isBasic || b.Info()&types.IsInteger == 0 {
+				return
+			}
+			n++
+			// what the compared value is at this point: for a variable, the assignments that reach the comparison
+			isStep := func(v ssa.Value) bool {
+				if cv, isCv := v.(*ssa.Convert); isCv {
+					v = cv.X
+				}
+				ar, isAr := v.(*ssa.BinOp)
+				return isAr && (ar.Op == token.ADD || ar.Op == token.SUB)
+			}
+			vals := []ssa.Value{other}
+			if ld, isLd := other.(*ssa.UnOp); isLd && ld.Op == token.MUL {
+				if _, isAl := ld.X.(*ssa.Alloc); isAl {
+					vals = nil
+					stores, _ := an.ReachingStores(ld)
+					for _, st := range stores {
+						vals = append(vals, st.Val)
+					}
+				}
+			}
+			for _, v := range vals {
+				if isStep(v) {
+					ok = false
+					pos = bo.Pos()
+				}
+				if phi, isPhi := v.(*ssa.Phi); isPhi {
+					for _, e := range phi.Edges {
+						if isStep(e) {
+							ok = false
+							pos = bo.Pos()
+						}
+					}
+				}
+			}
+		})
+	}
+	if pos == token.NoPos {
+		pos = fn.Pos()
+	}
+	c.SawFunc(an.FuncName(fn))
+	c.Check(ok && n > 0, rule, an.FuncName(fn)+"|a supplied total is compared with the stored total", pos, fmt.Sprintf("%d comparison(s) against the stored value", n),
+		"the supplied total is compared with the total after it was incremented: an event that carries the current total is read as a replacement and is not counted, so the totals fall behind the events")
+}
+
+// r2026: the version of a publication covers its content. mintVersion feeds the id, the body, the media type and the
+// audience into one hash and prints its sum; a hash's Sum does not absorb its argument into the state, so a Sum
+// whose result is thrown away has fed nothing (hash.Sum(p.Body) for hash.Write(p.Body): a new body keeps the old
+// version and a stale acknowledgement is accepted). Every content field reaches a write of the hash.
+func r2026(c *an.Ctx, rule string) {
+	fn := mustFunc(c, rule, "pkg/trait/publicationpb", "", "mintVersion")
+	if fn == nil {
+		return
+	}
+	name := an.FuncName(fn)
+	c.SawFunc(name)
+	fed := map[string]bool{}
+	var discarded ssa.Instruction
+	an.Instrs(fn, func(in ssa.Instruction) {
+		call, ok := in.(*ssa.Call)
+		if !ok {
+			return
+		}
+		cn := an.CalleeName(call)
+		method := ""
+		if call.Call.IsInvoke() {
+			method = call.Call.Method.Name()
+		}
+		switch {
+		case method == "Sum" || strings.HasSuffix(cn, ").Sum"):
+			if refs := call.Referrers(); refs == nil || len(*refs) == 0 {
+				discarded = in
+			}
+		case method == "Write" || strings.HasSuffix(cn, ").Write") || cn == "io.WriteString" || strings.HasSuffix(cn, "fmt.Fprint") || strings.HasSuffix(cn, "fmt.Fprintf"):
+			for _, a := range call.Call.Args {
+				for _, s0 := range append(an.Sources(a), an.SourcesOpaque(a)...) {
+					switch x := s0.(type) {
+					case *ssa.UnOp:
+						if _, _, f, isF := an.FieldOf(x.X); isF {
+							fed[f] = true
+						}
+					case *ssa.Call:
+						if strings.HasSuffix(an.CalleeName(x), ".GetName") || strings.HasSuffix(an.CalleeName(x), ".GetAudience") {
+							fed["Audience"] = true
+						}
+						for _, g := range []string{"Id", "Body", "MediaType"} {
+							if strings.HasSuffix(an.CalleeName(x), ".Get"+g) {
+								fed[g] = true
+							}
+						}
+					}
+				}
+			}
+		}
+	})
+	var missing []string
+	for _, f := range []string{"Id", "Body", "MediaType", "Audience"} {
+		if !fed[f] {
+			missing = append(missing, f)
+		}
+	}
+	pos := fn.Pos()
+	if discarded != nil {
+		pos = discarded.Pos()
+	}
+	c.Check(discarded == nil && len(missing) == 0, rule, name+"|the version covers id, body, media type and audience", pos, "each content field is written into the hash",
+		fmt.Sprintf("a content field does not reach the hash (not written: %v; a Sum whose result is discarded feeds nothing): publications that differ in it share a version, so a stale acknowledgement or expected-version write is accepted", missing))
+}
+
 // r2024: a model works with the configuration it was given. The package-level Default… variables of the trait
 // packages (default presets, default modes, default options) are what a model starts from when nothing else is
 // configured; they are read while a model is built, not by the model's methods, which consult the copy the model
